@@ -352,7 +352,7 @@ var vf14ErrInjected = errors.New("verif: injected component failure")
 func TestVerif_C14(t *testing.T) {
 	r := verifkit.Start(t, "C14", "exploration")
 	defer r.Finish()
-	r.SetRule("case = shard (with/without write-cache, real 3 ms GC timer or manual GC passes) filled in read-write with plain, expiring, tombstoned, locked, garbage-marked objects, removed containers (objects pending / objects already collected but record pending), a long-unpaid container, unflushed write-cache content, an epoch 0..2 announced before; GC backlog staged (untouched / one pass / removed-container record pending / drained); the read-only period is ENTERED by run-time SetMode, by restart of the stopped shard with the mode in its configuration (WithMode+Open+Init), or by run-time SetMode followed by a return to read-write aborted by an injected component failure; first mode RO or DRO, optionally followed by the other one; in each mode 40..120 steps, the first 22 a permutation of ALL step kinds (put/re-put/tombstone/lock, delete, mark default/redundant, container inhume/delete, restore, revive, flush, GC pass, epoch event via channel or direct, dump, reads), then random; persisted-state snapshot compared per component with the one taken at mode entry after EVERY step; distinct = (mode, entry, write-cache, step kind, outcome class)")
+	r.SetRule("case = shard (with/without write-cache, real 3 ms GC timer or manual GC passes) filled in read-write with plain, expiring, tombstoned, locked, garbage-marked objects, removed containers (objects pending / objects already collected but record pending), a long-unpaid container, unflushed write-cache content, an epoch 0..2 announced before; GC backlog staged (untouched / one pass / removed-container record pending / drained); the read-only period is ENTERED by run-time SetMode, by restart of the stopped shard with the mode in its configuration (WithMode+Open+Init; baseline after a first start with a silent GC timer, then one more stop/start with the case's timer), or by run-time SetMode followed by a return to read-write aborted by an injected component failure; first mode RO or DRO, optionally followed by the other one; in each mode 40..120 steps, the first 22 a permutation of ALL step kinds (put/re-put/tombstone/lock, delete, mark default/redundant, container inhume/delete, restore, revive, flush, GC pass, epoch event via channel or direct, dump, reads), then random; persisted-state snapshot compared per component with the one taken at mode entry after EVERY step; distinct = (mode, entry, write-cache, step kind, outcome class)")
 	r.Assume("metabase content is read through an independent read-only bbolt handle (shared flock) while the metabase is opened read-only or closed; when the shard keeps it opened writable (exclusive flock) committed content is read in a read transaction of the shard's own handle")
 	r.Assume("mode error = errors.Is(err, shard.ErrReadOnlyMode) || errors.Is(err, shard.ErrDegradedMode)")
 	r.Assume("a shard 'is read-only' when Shard.GetMode reports READ_ONLY or DEGRADED_READ_ONLY, however it got there")
